@@ -16,11 +16,12 @@ FeatOk(e) == /\ e.err = "" /\ e.doc = FeatureDoc(e.f) /\ WellFormedGeom(e.doc.v.
              /\ FEq(e.dec, NormF(e.f)) /\ FEq(e.decb, NormF(e.f)) /\ e.same = 1
              /\ FEq(e.re, NormF(e.f)) /\ FEq(e.reb, NormF(e.f)) /\ e.routes = 1 /\ e.stable = 1
              /\ e.idb = 1                        \* an integer id comes back from BSON as the same integer, also beyond 2^53
+             /\ e.kept = 1 /\ e.insame = 1       \* earlier results kept by value, and the marshalled input, are left alone
 FCEq(d, fc) == /\ Len(d.feats) = Len(fc.feats) /\ \A i \in 1..Len(fc.feats) : FEq(d.feats[i], NormF(fc.feats[i]))
                /\ d.bbox = fc.bbox /\ d.extra = fc.extra
 FCOk(e) == /\ e.err = "" /\ e.doc = FCDoc(e.fc)
            /\ FCEq(e.dec, e.fc) /\ FCEq(e.decb, e.fc) /\ e.same = 1
-           /\ FCEq(e.re, e.fc) /\ FCEq(e.reb, e.fc) /\ e.routes = 1 /\ e.stable = 1
+           /\ FCEq(e.re, e.fc) /\ FCEq(e.reb, e.fc) /\ e.routes = 1 /\ e.stable = 1 /\ e.insame = 1
 Ok(e) == CASE e.k = "bsonid" -> e.idb = 1 [] e.k = "geom" -> GeomOk(e) [] e.k = "feat" -> FeatOk(e) [] e.k = "fc" -> FCOk(e) [] OTHER -> FALSE
 Init == l = 1 /\ bad = {}
 Next == /\ l <= Len(Trace) /\ l' = l + 1
